@@ -230,17 +230,50 @@ pub fn c11n_twin_prim_vec_counts() {
 	core::mem::forget(r);
 }
 
-/// a vector long enough to be decoded in SEVERAL preallocation chunks (3 elements of 2 KiB, 2 per chunk) is still ONE level of
-/// nesting: limit 1 accepts, limit 0 rejects
+/// a vector long enough to be decoded in SEVERAL preallocation chunks (3 elements of 8 KiB in memory -- one wire byte each, the rest
+/// is a skipped pad -- so 2 per 16 KiB chunk) is still ONE level of nesting: limit 1 accepts, limit 0 rejects
+#[cfg(feature = "ext")]
+pub mod multi_chunk {
+	use super::*;
+	pub struct Pad8k(pub [u8; 8191]);
+	impl Default for Pad8k { fn default() -> Self { Pad8k([0; 8191]) } }
+	#[derive(Decode)]
+	pub struct Big8k { pub x: u8, #[codec(skip)] pub pad: Pad8k }
+	// (name class `s`: quick-tier harness that needs the allocator stubs -- without assert-and-cut on the reservations CBMC runs out
+	// of memory on the element storage; run with -Z stubbing by C11's second run). The THIRD element is missing from the input, so
+	// the decode fails inside the second chunk after the first chunk (2 elements) was completed: at that point exactly ONE descend
+	// must have been made for the vector, however many chunks were started -- and the same under a real limit of 1: the failure must
+	// be the missing data, which a limit of 1 permits to reach (max depth seen by the wrapped input == 1)
+	crate::with_stubs!(le_32k, #[kani::unwind(6)] pub fn c11s_multi_chunk_vec_is_one_level() {
+		let x: [u8; 2] = kani::any();
+		let mut h = HookLog::new(Pre::count(3, &x[..]));
+		let r = Vec::<Big8k>::decode(&mut h);
+		assert!(r.is_err(), "the third element is missing");
+		assert!(h.max_depth == 1 && h.depth == 1 && !h.unbalanced, "a vector decoded in several chunks descended more than once");
+		let mut h2 = HookLog::new(Pre::count(3, &x[..]));
+		let r2 = Vec::<Big8k>::decode_with_depth_limit(1, &mut h2);
+		assert!(r2.is_err());
+		assert!(h2.reads == h.reads, "under limit 1 the decode stopped elsewhere than the unlimited decode: the second chunk was charged as a second level");
+		core::mem::forget((r, r2));
+	});
+}
+
+/// a type whose own decoder applies a depth limit to the input it is handed (nested trackers): under an outer limit, siblings of
+/// such a type must not accumulate depth -- the inner tracker has to hand every ascend back to the outer one
+pub struct Guarded(pub Box<u8>);
+impl Decode for Guarded {
+	fn decode<I: Input>(input: &mut I) -> Result<Self, parity_scale_codec::Error> { Box::<u8>::decode_with_depth_limit(4, input).map(Guarded) }
+}
 #[kani::proof]
-#[kani::unwind(5)]
-pub fn c11q_multi_chunk_vec_is_one_level() {
-	let mut input = [0u8; 1 + 3 * 2048];
-	input[0] = 3 << 2;
-	type T = Vec<[u8; 2048]>;
-	let r = T::decode_with_depth_limit(1, &mut &input[..]);
-	assert!(r.is_ok(), "a vector decoded in several chunks was charged more than one level of nesting");
-	let r0 = T::decode_with_depth_limit(0, &mut &input[..]);
-	assert!(r0.is_err(), "limit 0 accepted a vector");
-	core::mem::forget((r, r0));
+#[kani::unwind(8)]
+pub fn c11q_nested_trackers_siblings_do_not_accumulate() {
+	let x: [u8; 4] = kani::any();
+	// three Guarded siblings (a box each): the real nesting depth of Vec<Guarded> is 2
+	let r = Vec::<Guarded>::decode_with_depth_limit(2, &mut Pre::count(3, &x[..3]));
+	assert!(r.is_ok(), "siblings decoded through a nested depth tracker accumulated depth");
+	let t = <(Guarded, Guarded, Guarded, Box<u8>)>::decode_with_depth_limit(1, &mut &x[..]);
+	assert!(t.is_ok(), "tuple siblings decoded through a nested depth tracker accumulated depth");
+	let e = Vec::<Guarded>::decode_with_depth_limit(1, &mut Pre::count(1, &x[..1]));
+	assert!(e.is_err(), "limit 1 accepted a box inside a vector");
+	core::mem::forget((r, t, e));
 }
